@@ -68,7 +68,7 @@ def check(ctx):
         w_none = [v for k, v in cfg.items() if "None is" in k and tstr(writes) in k]
         if w_none and w_none[0] is False:
             seen_write = True
-            ctx.check(len(wc) == 1 and not [fr for fr in wc[0].frames if fr[0] in ("if", "elif", "else")], "C28.stage-always-forwards", sb.site, f"PipelineBuilder.stage.write-present[{cn}]", found=f"{len(wc)} write call(s)", required="a stage with a successor always writes its output (unconditionally)")
+            ctx.check(len(wc) == 1 and not [fr for fr in wc[0].frames if fr[0] in ("if", "elif", "else")] and wc[0].enable is None and "enable_call" not in dict(wc[0].kwargs), "C28.stage-always-forwards", sb.site, f"PipelineBuilder.stage.write-present[{cn}]", found=f"{len(wc)} write call(s)", required="a stage with a successor always writes its output (unconditionally)")
             if wc:
                 col = wc[0].args[0] if wc[0].args else None
                 ws = [h for h in ex.of(HwAssign) if h.lhs is not None and h.lhs[0] == "i" and h.lhs[1] == col]
